@@ -38,7 +38,8 @@ META = dict(
     stubs=["aiohttp.ClientSession -> recording stub (session= parameter)", "hmac.new in binance.helpers and "
            "bitstamp.helpers -> recorder of (key, message); HMAC-SHA256 itself is trusted",
            "the names `time` and `datetime` in the client modules -> proxies whose time()/now()/utcnow() read the scenario "
-           "clock", "the request environment (clock reading x local time zone x limiter) is one solver choice from 5 combinations "
+           "clock", "the request environment (clock reading x local time zone x limiter x PRNG reseeding x live clock that advances "
+           "0.7 ms per reading) is one solver choice from 6 combinations "
            "(quick) / 9 combinations covering every value of 3 clocks, {UTC0, JST-9, ART3}, {no limiter, 5 s, 0.25 s}, "
            "{PRNG reseeded, not reseeded} (thorough; the second free character is explored in the first one)", "the clients' optional limiter (tb=) -> None or an object "
            "whose consume() returns 5 s (thorough: also 0.25 s); asyncio.sleep in the client modules advances the scenario clock", "uuid.uuid4 deterministic and distinct", "the application reseeding `random` before each request is part of "
@@ -58,11 +59,12 @@ CLOCKS = [1700000000.0004, 1700000000.4995, 1700000000.9996]
 # (clock reading, local time zone, limiter wait): the environment of a request, one solver choice (the three dimensions
 # are independent of each other and of the argument under test; the full product is the thorough tier's)
 # 4th field: the application reseeds the process-wide PRNG before each request (nonces must not repeat because of it)
-ENVS = [(0, "UTC0", None, False), (1, "UTC0", None, True), (2, "ART3", None, False), (0, "UTC0", 5.0, False),
-        (1, "ART3", 5.0, True)]
+# 5th field: a live clock - it advances 0.7 ms with every reading, so every reading rounds to another millisecond
+ENVS = [(0, "UTC0", None, False, False), (1, "UTC0", None, True, False), (2, "ART3", None, False, False),
+        (0, "UTC0", 5.0, False, False), (1, "ART3", 5.0, True, False), (0, "UTC0", None, False, True)]
 # thorough: every zone, every limiter wait and both PRNG behaviours occur (pairwise, not the full product of 54)
-ENVS_THOROUGH = ENVS + [(2, "JST-9", None, False), (0, "JST-9", 0.25, True), (1, "UTC0", 0.25, False),
-                        (2, "ART3", 0.25, True)]
+ENVS_THOROUGH = ENVS + [(2, "JST-9", None, False, False), (0, "JST-9", 0.25, True, True), (1, "UTC0", 0.25, False, False),
+                        (2, "ART3", 0.25, True, False)]
 EXTRA_DECIMALS = ["12.50", "1E-8", "3.1E+4"]      # extra keyword arguments may be decimals of any exponent
 
 
@@ -160,16 +162,35 @@ class _RandomRestore:
         random.setstate(old)
 
 
+class _Clock(list):
+    """one-cell clock (clk[0]); read() records the reading and, for a live clock, advances it"""
+    def __init__(self, start, readings, tick):
+        super().__init__([start])
+        self.readings, self.tick = readings, tick
+
+    def read(self):
+        v = self[0]
+        self.readings.append(v)
+        self[0] = v + self.tick
+        return v
+
+
+def _stamp_ok(ctx, stamp_ms, n0):
+    """the transmitted timestamp is one of the clock readings taken during this request (readings[n0:]); with a clock
+    that stands still that is the time the request went out"""
+    return any(stamp_ms == int(round(v * 1000)) for v in ctx.scratch["c16_readings"][n0:])
+
+
 class _TimeProxy:
     """the name `time` inside a client module: time() reads the scenario clock, everything else is the real module"""
     def __init__(self, clk):
         self._clk = clk
 
     def time(self):
-        return self._clk[0]
+        return self._clk.read()
 
     def time_ns(self):
-        return int(round(self._clk[0] * 10 ** 9))
+        return int(round(self._clk.read() * 10 ** 9))
 
     def __getattr__(self, name):
         return getattr(_time, name)
@@ -181,11 +202,11 @@ def _datetime_proxy(clk):
     class _DT(datetime.datetime):
         @classmethod
         def now(cls, tz=None):
-            return datetime.datetime.fromtimestamp(clk[0], tz)
+            return datetime.datetime.fromtimestamp(clk.read(), tz)
 
         @classmethod
         def utcnow(cls):
-            return datetime.datetime.utcfromtimestamp(clk[0])
+            return datetime.datetime.utcfromtimestamp(clk.read())
     ns = types.SimpleNamespace(**{k: getattr(datetime, k) for k in dir(datetime) if not k.startswith("__")})
     ns.datetime = _DT
     return ns
@@ -197,10 +218,12 @@ def _clock_env(ctx, modules, tier="quick"):
     from .c17_wire import _local_zone
     envs = ENVS_THOROUGH if tier == "thorough" else ENVS
     env_idx = ctx.choice("environment", len(envs))
-    ci, zone, wait, reseeds = envs[env_idx]
+    ci, zone, wait, reseeds, tick = envs[env_idx]
     ctx.scratch["c16_reseeds"] = reseeds
+    ctx.scratch["c16_readings"] = readings = []
+    ctx.scratch["c16_tick"] = tick
     ctx.scratch["c16_env_idx"] = env_idx
-    clk = [CLOCKS[ci]]
+    clk = _Clock(CLOCKS[ci], readings, 0.0007 if tick else 0.0)
     _local_zone(ctx, [zone])
     found = False
     for m in modules:
@@ -241,8 +264,9 @@ def binance_endpoint(ctx, account="spot_account", method="query_order", tier="qu
     kw = _args_for(fn, gen, dec, lambda: {"newOrderRespType": gen("extra_kwarg"),
                                           "extraDecimal": Decimal(EXTRA_DECIMALS[ctx.choice("extra_decimal",
                                                                                             len(EXTRA_DECIMALS))])})
+    n0 = len(ctx.scratch["c16_readings"])
     run(fn(**kw))
-    clock = clk[0]              # the time the request went out (the clock only moves while the limiter makes it wait)
+    clock = clk[0]              # (the clock moves while the limiter makes the request wait, and with every reading if live)
     call = sess.calls[-1]
     url, raw_q = _wire_query(call["url_obj"], call["params"])
     signed = any(p.startswith("signature=") for p in raw_q.split("&"))
@@ -265,7 +289,9 @@ def binance_endpoint(ctx, account="spot_account", method="query_order", tier="qu
               "C16 binance: the signature covers exactly the transmitted query string (without the signature) followed "
               "by the transmitted body", info=dict(signed=msg, wire_query=wire_q, wire_body=body, endpoint=method))
     ts = [p for p in parts if p.startswith("timestamp=")]
-    ctx.prove(len(ts) == 1 and ts[0] == "timestamp=%d" % int(round(clock * 1000)),
+    ctx.prove(len(ts) == 1 and ts[0].split("=")[1].isdigit() and
+              (_stamp_ok(ctx, int(ts[0].split("=")[1]), n0) if ctx.scratch["c16_tick"] else
+               ts[0] == "timestamp=%d" % int(round(clock * 1000))),
               "C16 binance: the timestamp is the current time in milliseconds", info=(ts, clock))
 
 
@@ -287,10 +313,11 @@ def bitstamp_endpoint(ctx, method="get_order_status", tier="quick"):
     # start of every cycle): nonces must not repeat because of it
     reseeds = ctx.scratch["c16_reseeds"]
     ctx.patches.append((_RandomRestore(), "state", random.getstate()))
-    sent_at = []
+    sent_at, first_reading = [], []
     for _ in range(2):
         if reseeds:
             random.seed(1234)
+        first_reading.append(len(ctx.scratch["c16_readings"]))
         run(fn(**kw))
         sent_at.append(clk[0])
     nonces = []
@@ -318,7 +345,9 @@ def bitstamp_endpoint(ctx, method="get_order_status", tier="quick"):
                   "content type, nonce, timestamp and body", info=dict(signed=msg, wire=message))
         ctx.prove(h.get("X-Auth") == "BITSTAMP the-key" and h.get("X-Auth-Signature") == "sig%04d" % (i + 1),
                   "C16 bitstamp: key and signature accompany the request")
-        ctx.prove(h.get("X-Auth-Timestamp") == str(int(round(clock * 1000))),
+        stamp = h.get("X-Auth-Timestamp", "")
+        ctx.prove(stamp.isdigit() and (_stamp_ok(ctx, int(stamp), first_reading[i]) if ctx.scratch["c16_tick"] else
+                                       stamp == str(int(round(clock * 1000)))),
                   "C16 bitstamp: the timestamp is the current time in milliseconds")
         nonces.append(h.get("X-Auth-Nonce"))
     if len(nonces) == 2:
